@@ -104,4 +104,47 @@ CHECKS = {
              "thorough": {"checks": 40000, "shards": 16, "timeout": 3600, "shrink": "60s"}},
         ],
     },
+    "C03": {
+        "level": "exploration",
+        "rule": "rapid-generated cases: a block tree with wallet transactions, block headers pre-filled (optionally lagging), filter headers pre-filled to a generated height, one honest peer connected first plus 1-5 peers that are honest / lie consistently with a filter omitting an output script / advertise a hash their filter does not match / advertise a hash and serve no filter / lie unprovably (superset filter) / lie only in filter checkpoints / stay silent, from a generated height; events connect / drop / chain growth / reorganisation / clock advance. At every quiescence: filter tip <= block tip, every entry is dSHA256(served filter hash || previous entry) for the block at that height of the current chain, by-hash lookups agree, no banned peer stays connected, the honest peer is never banned; when every liar is provable the committed entries equal ground truth; at the end every provable liar that put a lie on the wire below the final filter tip is banned. Two units: at-tip worlds (<1000 blocks) and checkpointed worlds (1000-2600 blocks). Non-trivial = some liar actually served falsified data; distinct = distinct case JSON",
+        "assumptions": NETSIM_ASSUME + [
+            "the honest peer is connected before any other peer (dial gate) and never dropped, so it is among the responders of every filter-header query",
+            "the matching direction of the hard-coded mainnet/testnet filter-header checkpoints cannot be generated (would need a hash preimage); generated networks have no hard-coded filter checkpoints",
+        ],
+        "units": [
+            {"name": "netsim", "module": "harness", "pkg": "./checks/c03", "test": "TestC03", "tags": "verif",
+             "quick": {"checks": 25, "shards": 12, "timeout": 600},
+             "thorough": {"checks": 400, "shards": 12, "timeout": 3600, "shrink": "60s"}},
+            {"name": "netsim-checkpointed", "module": "harness", "pkg": "./checks/c03", "test": "TestC03Big", "tags": "verif",
+             "quick": {"checks": 8, "shards": 4, "timeout": 600},
+             "thorough": {"checks": 120, "shards": 4, "timeout": 3600, "shrink": "60s"}},
+        ],
+    },
+    "C11": {
+        "level": "exploration",
+        "rule": "rapid-generated scripts over {subscribe(height, reader fast/slow/manual/never), cancel, emit bursts of 1-70 connected/disconnected events, take k, stall, sleep, stop}, in step mode and with subscribe / cancel / emit / stop issued from concurrent goroutines (also in the middle of a burst), against the real SubscriptionManager with a generated NotificationSource in a synctest bubble; per subscriber the items read must always be a prefix of backlog ++ events emitted after registration, willing readers are fully served at every quiescence whatever other subscribers do, channels close after cancel / stop and nothing follows, no caller stays blocked. Non-trivial = a subscriber had more than 20 accepted-but-unread events at a quiescent point, or a cancel / stop was issued with events in flight; distinct = distinct case JSON",
+        "assumptions": [
+            "in concurrent mode the one in-flight event makes two registration cuts admissible; all count checks are existential over the admissible cuts",
+            "while Stop is in progress only the prefix and closure rules are asserted, not completeness",
+        ],
+        "units": [
+            {"name": "blockntfns", "module": "harness", "pkg": "./checks/c11", "test": "TestC11", "tags": "verif",
+             "quick": {"checks": 2500, "shards": 16, "timeout": 600},
+             "thorough": {"checks": 60000, "shards": 16, "timeout": 3600, "shrink": "60s"}},
+        ],
+    },
+    "C15": {
+        "level": "exploration",
+        "rule": "(broadcaster) rapid-generated cases: 1-6 transactions in a chain / diamond / fan / random / independent dependency graph, a script of 4-32 operations over Broadcast(tx) with first-attempt outcome ok / mempool / invalid / fee / unknown / confirmed / plain error and callback latency, block event, tick, MarkAsConfirmed, wait, Stop, issued from concurrent goroutines (also after Stop), against the real pushtx.Broadcaster with a generated callback and a hand-made block subscription in a synctest bubble; a set model over the callback log checks every rebroadcast round (a trigger exists, no overlap, no duplicates, parents before children, exactly the accepted-and-unconfirmed set), trigger coverage, Broadcast return values, and that every Broadcast / MarkAsConfirmed / Stop call returns. Non-trivial = a round sent both ends of a dependency edge whose parent was accepted after the child, or a transaction was confirmed between two rounds; distinct = distinct case JSON",
+        "assumptions": [
+            "within one virtual instant only causally forced orders are used; overlapping events are treated as uncertainty intervals",
+            "a rejected re-attempt of a tracked transaction does not untrack it; Confirmed on a first attempt counts as a rejection",
+            "the verdict rule of ChainService.SendTransaction (every replier rejected / invalid share >= threshold) is not covered by this unit",
+        ],
+        "units": [
+            {"name": "broadcaster", "module": "harness", "pkg": "./checks/c15", "test": "TestC15Broadcaster", "tags": "verif",
+             "quick": {"checks": 2500, "shards": 16, "timeout": 600},
+             "thorough": {"checks": 60000, "shards": 16, "timeout": 3600, "shrink": "60s"}},
+        ],
+    },
 }
